@@ -170,7 +170,8 @@ class Unit:
             if getattr(ob, "_done", False):
                 continue
             ob._done = True
-            self._solve(f"{self.prop}.{ob.name}", fi.qualname, ob.pc, ob.goal, ob.info.get("witness"), ob.info.get("replay"), ob.info)
+            self._solve(f"{self.prop}.{ob.name}", fi.qualname, ob.pc, ob.goal, ob.info.get("witness") or getattr(self, "internal_witness", None),
+                        ob.info.get("replay") or getattr(self, "internal_replay", None), ob.info)
 
     # ---- obligations ------------------------------------------------------------------------
     def oblige(self, path: Path | None, name: str, goal, witness=None, replay=None, fnq=None, hyps=None, info=None):
@@ -185,31 +186,43 @@ class Unit:
         if isinstance(goal, bool):
             goal = z3.BoolVal(goal)
         t0 = time.time()
-        s = z3.Solver()
-        s.set("timeout", self.timeout_ms)
-        for c in pc:
-            s.add(c)
-        s.add(z3.Not(goal))
-        r = s.check()
-        solver = "z3"
-        verdict, model = None, None
-        if r == z3.unsat:
-            verdict = "discharged"
-        elif r == z3.sat:
-            verdict, model = "refuted", s.model()
-            small = (info or {}).get("small")
-            if small:      # prefer a counter-model with small dimensions (replayable)
-                for bound in (4, 12):
-                    s.push()
-                    s.add(*[z3.And(t <= bound, t >= -bound) for t in small if isinstance(t, z3.ExprRef)])
-                    if s.check() == z3.sat:
-                        model = s.model()
+        verdict, model, solver, s = None, None, "z3", None
+        # Escalating attempts: solver run time on nonlinear queries is erratic (same query 0.04 s or > 20 s
+        # depending on term numbering), so a short first try, the goal's cone of influence, another seed, then
+        # the full budget. `sat` is only accepted from an attempt that carries the complete path condition.
+        for attempt, (budget, seed) in enumerate(((2500, 0), (None, 0), (8000, 7), (self.timeout_ms, 0))):
+            if budget is None:
+                if relevant_retry(pc, goal, 6000):
+                    verdict, solver = "discharged", "z3 (cone of influence)"
+                    break
+                continue
+            s = z3.Solver()
+            s.set("timeout", budget)
+            if seed:
+                s.set("random_seed", seed)
+                s.set("smt.random_seed", seed)
+            for c in pc:
+                s.add(c)
+            s.add(z3.Not(goal))
+            r = s.check()
+            if r == z3.unsat:
+                verdict = "discharged"
+                break
+            if r == z3.sat:
+                verdict, model = "refuted", s.model()
+                small = (info or {}).get("small")
+                if small:      # prefer a counter-model with small dimensions (replayable)
+                    for bound in (4, 12):
+                        s.push()
+                        s.add(*[z3.And(t <= bound, t >= -bound) for t in small if isinstance(t, z3.ExprRef)])
+                        if s.check() == z3.sat:
+                            model = s.model()
+                            s.pop()
+                            break
                         s.pop()
-                        break
-                    s.pop()
-        else:
-            # second back end: cvc5 on the SMT-LIB2 export
-            r2 = cvc5_check(s, self.timeout_ms)
+                break
+        if verdict is None:
+            r2 = cvc5_check(s, self.timeout_ms)      # second back end on the SMT-LIB2 export
             if r2 == "unsat":
                 verdict, solver = "discharged", "cvc5"
             else:
@@ -266,6 +279,45 @@ class Unit:
         self.results.append({"name": f"{self.prop}.{name}", "function": "", "verdict": "discharged" if ok else "undecided",
                              "solver": "cover", "seconds": 0.0, "reason": None if ok else "vacuity: no path reaches the covered outcome"})
         return ok
+
+
+def _symbols(t, cache={}):
+    out, stack, seen = set(), [t], set()
+    while stack:
+        x = stack.pop()
+        if x.get_id() in seen:
+            continue
+        seen.add(x.get_id())
+        if z3.is_app(x):
+            d = x.decl()
+            if d.kind() == z3.Z3_OP_UNINTERPRETED or d.kind() == z3.Z3_OP_RECURSIVE:
+                out.add(d.name())
+            stack.extend(x.children())
+        elif z3.is_quantifier(x):
+            stack.append(x.body())
+    return out
+
+
+def relevant_retry(pc, goal, timeout_ms) -> bool:
+    """Try to prove goal from growing cones of influence (hypotheses sharing symbols with the goal)."""
+    syms = [(_symbols(c), c) for c in pc if isinstance(c, z3.ExprRef)]
+    cone = _symbols(goal)
+    for rounds in range(3):
+        chosen = [c for sy, c in syms if sy & cone]
+        s = z3.Solver()
+        s.set("timeout", timeout_ms)
+        s.add(*chosen)
+        s.add(z3.Not(goal))
+        if s.check() == z3.unsat:
+            return True
+        new = set(cone)
+        for sy, c in syms:
+            if sy & cone:
+                new |= sy
+        if new == cone:
+            break
+        cone = new
+    return False
 
 
 def cvc5_check(solver: z3.Solver, timeout_ms: int) -> str:
